@@ -578,6 +578,9 @@ Verdict propC02(Choices &c, Ctx &ctx) {
 
 // ------------------------------------- C18: finite features, in-range scores
 decoder_t *gDecPlain = nullptr; // compallsen = no
+// the scorers the bundled models never select, on layouts derived from en-us (tools/gen_models.py, DESIGN.md 9.9):
+// semi-continuous (s2_semi_mgau.c), general multi-stream (ms_mgau.c), PTM reading float mixture weights
+decoder_t *gDecSemi = nullptr, *gDecMs = nullptr, *gDecMixw = nullptr;
 
 std::vector<int16_t> adversarial(Choices &c, size_t n, std::string &desc, bool &useFloat, float &fscale) {
   std::vector<int16_t> v(n);
@@ -768,7 +771,14 @@ Verdict propC18(Choices &c, Ctx &ctx) {
     return res;
   }
   // ---- through the decoder ----
-  decoder_t *d = c.coin(50) ? gDec : gDecPlain;
+  uint32_t dsel = c.raw();
+  decoder_t *d = dsel % 100 >= 50 ? gDec : gDecPlain;
+  const char *dname = d == gDec ? "compallsen" : "default";
+  switch ((dsel / 100) % 10) { // small (shrunk) values keep the bundled model
+  case 7: if (gDecSemi) d = gDecSemi, dname = "semi-continuous"; break;
+  case 8: if (gDecMs) d = gDecMs, dname = "multi-stream"; break;
+  case 9: if (gDecMixw) d = gDecMixw, dname = "ptm-float-weights"; break;
+  }
   bool fullUtt = c.coin(30);
   size_t N;
   long tier = getenv("VERIF_TIER") && !strcmp(getenv("VERIF_TIER"), "thorough");
@@ -794,7 +804,7 @@ Verdict propC18(Choices &c, Ctx &ctx) {
     cmninit = o.str();
   }
   std::ostringstream ds;
-  ds << "decoder(" << (d == gDec ? "compallsen" : "default") << ") " << sc.str() << (fullUtt ? " full_utt" : " streaming") << (cmninit.empty() ? "" : " set_cmn=" + cmninit) << " | align '" << text << "' | N=" << N << " " << sdesc;
+  ds << "decoder(" << dname << ") " << sc.str() << (fullUtt ? " full_utt" : " streaming") << (cmninit.empty() ? "" : " set_cmn=" + cmninit) << " | align '" << text << "' | N=" << N << " " << sdesc;
   ctx.describe(ds.str());
   applySearchCfg(d, sc);
   PBT_CHECK(decoder_set_align_text(d, text.c_str()) == 0, "install-refused", "align text refused");
@@ -835,6 +845,7 @@ Verdict propC18(Choices &c, Ctx &ctx) {
   Verdict v = cmnFixpoint(d, "after the utterance");
   if (!v.ok) return v;
   ctx.label("family:decoder");
+  ctx.label(std::string("scorer:") + dname);
   ctx.label("signal:" + sdesc.substr(0, sdesc.find('(')));
   ctx.labelIf(N >= 480000, "length:>=30s");
   ctx.labelIf(!cmninit.empty(), "cmninit:large-magnitude");
@@ -857,12 +868,33 @@ void initViterbi() {
   audio::goforwardFr();
 }
 
+decoder_t *makeDerived(const char *sub, const char *senmgau, bool compallsen) {
+  config_t *cfg = config_init(NULL);
+  config_set_str(cfg, "hmm", (derivedModelsDir() + "/" + sub).c_str());
+  config_set_str(cfg, "dict", (verifDir() + "/data/mini.dic").c_str());
+  config_set_str(cfg, "loglevel", "FATAL");
+  config_set_bool(cfg, "compallsen", compallsen);
+  if (senmgau) config_set_str(cfg, "senmgau", senmgau);
+  return decoder_init(cfg);
+}
+
+void initC18() {
+  initViterbi();
+  gDecSemi = makeDerived("semi", nullptr, false);
+  gDecMs = makeDerived("mixw", ".ptm.", true);
+  gDecMixw = makeDerived("mixw", nullptr, false);
+  if (!gDecSemi || !gDecMs || !gDecMixw) {
+    fprintf(stderr, "a derived model layout does not load (semi=%p ms=%p mixw=%p)\n", (void *)gDecSemi, (void *)gDecMs, (void *)gDecMixw);
+    exit(2);
+  }
+}
+
 } // namespace
 
 namespace pbt {
 const PropDef kProps[] = {
     {"C02", propC02, true, 60000, initViterbi},
-    {"C18", propC18, true, 240000, initViterbi},
+    {"C18", propC18, true, 240000, initC18},
     {nullptr, nullptr, false, 0, nullptr},
 };
 }
